@@ -929,7 +929,7 @@ class PyExec:
             if n.id in ("type", "hasattr", "getattr", "id", "set", "frozenset", "sys", "warnings", "textwrap") and self.opaque_unknown:
                 return Opaque("builtin " + n.id)
             if n.id in ("abs", "len", "range", "zip", "enumerate", "float", "int", "min", "max", "sum",
-                        "isinstance", "list", "tuple", "bool", "round", "sorted", "print", "str", "dict", "reversed", "any", "all"):
+                        "isinstance", "list", "tuple", "bool", "round", "sorted", "print", "str", "dict", "reversed", "any", "all", "slice"):
                 return Builtin(n.id)
             if n.id in ("True", "False", "None"):
                 return {"True": True, "False": False, "None": None}[n.id]
@@ -1608,6 +1608,9 @@ class PyExec:
     def builtin(self, st, name, args, kwargs, node):
         if name == "super":
             return SuperRef(self.cur_env.get("self"), self.cur_env.get("__cls__"))
+        if name == "slice":
+            a3 = list(args) + [None] * (3 - len(args))
+            return slice(None, a3[0], None) if len(args) == 1 else slice(a3[0], a3[1], a3[2])
         if name == "abs":
             v = num(args[0])
             return z3.If(v >= 0, v, -v)
